@@ -74,6 +74,7 @@ type memConn struct {
 	// fault plan
 	failWrite       int // index of Write call to fail (-1 none)
 	failRead        int
+	writeErr        error // error returned by failing writes (default errInjected)
 	writeDeadFrom   int   // >= 0: every Write with this index or a later one fails (a broken link; reads stay healthy)
 	failReadErr     error // error returned by the failing Read (default errInjected)
 	failDead        int
@@ -165,7 +166,11 @@ func (c *memConn) Write(p []byte) (int, error) {
 	}
 	if idx == c.failWrite || (c.writeDeadFrom >= 0 && idx >= c.writeDeadFrom) {
 		c.ops = append(c.ops, opRec{Kind: "W", Err: true})
+		werr := c.writeErr
 		c.mu.Unlock()
+		if werr != nil {
+			return 0, werr
+		}
 		return 0, errInjected
 	}
 	data := append([]byte(nil), p...)
